@@ -27,7 +27,7 @@ Inductive res :=
 
 Inductive meth :=
 | MCharAt | MCharCodeAt | MIndexOf | MLastIndexOf | MSlice | MSubstring | MSubstr
-| MSplit | MConcat | MTrim | MToLower | MToUpper | MLength | MIndex.
+| MSplit | MConcat | MTrim | MToLower | MToUpper | MLocaleCompare | MLength | MIndex.
 
 (* ---------- extended integers ---------- *)
 Inductive ext := NInf | Fin (z : Z) | PInf.
@@ -326,6 +326,20 @@ Definition index_get (s : str) (p : str) : res :=
   | None => VUndef
   end.
 
+(* ---------- 15.5.4.9 ---------- *)
+(* The order itself is implementation-defined.  What the standard fixes is that both sides are
+   strings (S = ToString(this), That = ToString(that)), that the function is a total order and
+   that equal strings give 0.  The check pins otto's order: code point order of the text, i.e.
+   byte order of its UTF-8 form (proved a total order in Proofs.v). *)
+Fixpoint cmp_list (a b : list Z) : Z :=
+  match a, b with
+  | [], [] => 0
+  | [], _ :: _ => -1
+  | _ :: _, [] => 1
+  | x :: a', y :: b' => if x <? y then -1 else if y <? x then 1 else cmp_list a' b'
+  end.
+Definition locale_order (a b : str) : Z := cmp_list (enc8 (dec16 a)) (enc8 (dec16 b)).
+
 (* ---------- one call ---------- *)
 Definition opt_ext (args : list arg) (i : nat) : option (option ext) :=
   (* None = not convertible here (declined); Some None = undefined/absent *)
@@ -382,6 +396,7 @@ Definition call_spec (m : meth) (r : recv) (args : list arg) : option res :=
       | MTrim => Some (VStr (trim s))
       | MToLower => option_map VStr (map_opt lower1 s)
       | MToUpper => option_map VStr (map_opt upper1 s)
+      | MLocaleCompare => option_map (fun t => VInt (locale_order s t)) (to_string (arg_at args 0))
       | MLength =>
           match r with RLit _ | RStrObj _ => Some (VInt (zlen s)) | _ => None end
       | MIndex =>
@@ -455,6 +470,7 @@ Definition plan_spec (m : meth) (eargs : list earg) : list (nat * conv) :=
       (if e_undef (earg_at eargs 1) then [] else [(1%nat, KN)]) ++
       (if e_undef (earg_at eargs 0) then [] else [(0%nat, KS)])
   | MConcat => all_ks 0 (length eargs)
+  | MLocaleCompare => [(0%nat, KS)]
   | _ => []
   end.
 
